@@ -73,3 +73,75 @@ theorem separateRow_mixed (st : PState) (ind rest : Bytes)
         rfl
 
 end Gtree
+
+namespace Gtree
+
+/-- an attempt whose "before" part begins with a blank other than the indent character the parser has latched fails -/
+theorem attempt_wrong_char (st : PState) (c c' s : UInt8) (m : Nat) (rest : Bytes)
+    (hsep : st.sep = some c) (hc' : c' = sp ∨ c' = tab) (hne : c' ≠ c) (hs : s ≠ sp ∧ s ≠ tab) :
+    (attempt st (List.replicate (m + 1) c' ++ rest) s).2 = none := by
+  have hsn : s ∉ List.replicate (m + 1) c' := by
+    intro h
+    have := List.eq_of_mem_replicate h
+    rcases hc' with e | e
+    · exact hs.1 (by rw [this, e])
+    · exact hs.2 (by rw [this, e])
+  unfold attempt
+  rw [cut_append_not_mem s _ rest hsn]
+  cases hc : cut s rest with
+  | none => simp
+  | some p =>
+    simp only [Option.map_some, List.replicate_succ, List.cons_append]
+    have hct : (c' == sp || c' == tab) = true := by rcases hc' with e | e <;> simp [e]
+    simp only [hct, if_true, hsep, Option.isNone_some, Bool.false_eq_true, if_false, Option.getD_some]
+    have hlt : countB c (c' :: (List.replicate m c' ++ p.1)) < (c' :: (List.replicate m c' ++ p.1)).length :=
+      countB_lt_of_mem c c' _ (by simp) hne
+    have hneq : (countB c (c' :: (List.replicate m c' ++ p.1)) != (c' :: (List.replicate m c' ++ p.1)).length) = true := by
+      simp only [bne_iff_ne, ne_eq]; omega
+    simp only [hneq, if_true]
+
+/-- M3 — an indentation in the other blank than the document's is never separated -/
+theorem separateRow_wrong_char (st : PState) (c c' : UInt8) (m : Nat) (rest : Bytes)
+    (hsep : st.sep = some c) (hc' : c' = sp ∨ c' = tab) (hne : c' ≠ c) :
+    (separateRow st (List.replicate (m + 1) c' ++ rest)).2 = none := by
+  -- a failed attempt keeps the latched character (it is only ever set when none is latched)
+  have keep : ∀ (st' : PState) (s : UInt8), st'.sep = some c → s ≠ sp ∧ s ≠ tab →
+      ∃ st'', attempt st' (List.replicate (m + 1) c' ++ rest) s = (st'', none) ∧ st''.sep = some c := by
+    intro st' s hs' hsym
+    have hfail := attempt_wrong_char st' c c' s m rest hs' hc' hne hsym
+    cases ha : attempt st' (List.replicate (m + 1) c' ++ rest) s with
+    | mk st'' r =>
+      rw [ha] at hfail
+      simp only at hfail
+      subst hfail
+      refine ⟨st'', rfl, ?_⟩
+      -- which state a failed attempt leaves: the given one, or the given one after latching (not here) / learning the unit
+      have hsn : s ∉ List.replicate (m + 1) c' := by
+        intro h
+        have := List.eq_of_mem_replicate h
+        rcases hc' with e | e
+        · exact hsym.1 (by rw [this, e])
+        · exact hsym.2 (by rw [this, e])
+      unfold attempt at ha
+      rw [cut_append_not_mem s _ rest hsn] at ha
+      cases hcut : cut s rest with
+      | none => simp [hcut] at ha; rw [← ha]; exact hs'
+      | some p =>
+        simp only [hcut, Option.map_some, List.replicate_succ, List.cons_append] at ha
+        have hct : (c' == sp || c' == tab) = true := by rcases hc' with e | e <;> simp [e]
+        simp only [hct, if_true, hs', Option.isNone_some, Bool.false_eq_true, if_false, Option.getD_some] at ha
+        have hlt : countB c (c' :: (List.replicate m c' ++ p.1)) < (c' :: (List.replicate m c' ++ p.1)).length :=
+          countB_lt_of_mem c c' _ (by simp) hne
+        have hneq : (countB c (c' :: (List.replicate m c' ++ p.1)) != (c' :: (List.replicate m c' ++ p.1)).length) = true := by
+          simp only [bne_iff_ne, ne_eq]; omega
+        simp only [hneq, if_true, Prod.mk.injEq, and_true] at ha
+        rw [← ha]; exact hs'
+  simp only [separateRow, listSymbols, separateRowAux]
+  obtain ⟨s1, h1, k1⟩ := keep st hy hsep (by decide)
+  rw [h1]
+  obtain ⟨s2, h2, k2⟩ := keep s1 ast k1 (by decide)
+  simp only [h2]
+  obtain ⟨s3, h3, _⟩ := keep s2 pls k2 (by decide)
+  simp only [h3]
+
+end Gtree
